@@ -2,7 +2,7 @@
 import os, json
 from . import common as C
 
-FK = {"main": "FMain", "conf": "FConf", "stream": "FStream", "tls": "FTls"}
+FK = {"main": "FMain", "conf": "FConf", "stream": "FStream", "tls": "FTls", "secret": "FSecret", "lazy": "FLazy"}
 RK = {"ing": "KIng", "merge": "KMerge", "vs": "KVS", "ts": "KTS"}
 ERR = {"none": 0, "reload": 1}
 
@@ -68,6 +68,10 @@ def cq_op(o):
         return "OUpdateTSs %s %s" % (cq_rs(o.get("rs")), cq_strs(o.get("files")))
     if k == "batchdel":
         return "OBatchDelete %s %s" % (RK[o["kind"]], cq_strs(o.get("files")))
+    if k == "secret":
+        return "OSecret %s %s %s" % (C.cq_bool(o.get("eager", False)), C.cq_str(o["name"]), C.cq_z(o.get("ver", 0)))
+    if k == "reload":
+        return "OReload"
     raise ValueError(k)
 
 
@@ -75,14 +79,16 @@ def cq_nats(xs):
     return "[%s]%%nat" % "; ".join(str(x) for x in xs or [])
 
 
-TK = {"endpointslice": "TEndpointSlice", "configmap": "TConfigMap"}
+TK = {"endpointslice": "TEndpointSlice", "configmap": "TConfigMap", "mgmtconfigmap": "TConfigMap"}
 
 
 def cq_task(t):
-    return "(mktask %s %d %s %s %s %s %s %s)" % (TK.get(t["kind"], "TOther"), t["qlen"],
-                                                 C.cq_list(["(%s)" % cq_op(o) for o in t.get("work") or []]),
-                                                 C.cq_bool(t.get("found", False)), C.cq_bool(t.get("reports", True)),
-                                                 C.cq_bool(t.get("allrep", True)), C.cq_z(t.get("mvnow", 0)), cq_rs(t.get("all")))
+    return "(mktask %s %d %s %s %s %s %s %s %s)" % (TK.get(t["kind"], "TOther"), t["qlen"],
+                                                    C.cq_list(["(%s)" % cq_op(o) for o in t.get("work") or []]),
+                                                    C.cq_bool(t.get("found", False)), C.cq_bool(t.get("reports", True)),
+                                                    C.cq_bool(t.get("allrep", True)),
+                                                    C.cq_list(["(%s)" % cq_op(o) for o in t.get("allpre") or []]),
+                                                    C.cq_z(t.get("mvnow", 0)), cq_rs(t.get("all")))
 
 
 def cq_mis(obs):
@@ -111,7 +117,7 @@ def case_to_coq(c):
 PRELUDE = """From NIC Require Import Base.SMap Reload.Model Reload.Cases.
 Definition mkfx w u b d := {| fx_weights := w; fx_uab := u; fx_batchrep := b; fx_endprep := d |}.
 Definition mkres k n v a w := {| r_kind := k; r_name := n; r_ver := v; r_apis := a; r_weights := w |}.
-Definition mktask k q w f rp ar mv al := {| t_kind := k; t_qlen := q; t_work := w; t_found := f; t_reports := rp; t_all_reports := ar; t_mainver := mv; t_all := al |}.
+Definition mktask k q w f rp ar pre mv al := {| t_kind := k; t_qlen := q; t_work := w; t_found := f; t_reports := rp; t_all_reports := ar; t_all_pre := pre; t_mainver := mv; t_all := al |}.
 """
 
 
@@ -146,6 +152,10 @@ def op_site(o):
                 "ts": "UpdateEndpointsForTransportServers"}[o["kind"]]
     if k == "batchdel":
         return "BatchDeleteVirtualServers" if o["kind"] == "vs" else "BatchDeleteIngresses"
+    if k == "secret":
+        return "secret-write:" + o["name"]
+    if k == "reload":
+        return "Reload"
     return {"addvss": "AddOrUpdateVirtualServers", "addres": "AddOrUpdateResources", "enable": "EnableReloads", "disable": "DisableReloads",
             "updateconfig": "UpdateConfig", "reloadbatch": "ReloadForBatchUpdates", "updatevss": "UpdateVirtualServers",
             "updatetss": "UpdateTransportServers"}[k]
@@ -187,7 +197,7 @@ def judge(run, cases, res):
         cid, agree, spec, nontriv, cover, ag = row[:6]
         c = byid[cid]
         steps = c["ops"] if c["fam"] == "cfg" else c["tasks"]
-        canon = {k: c.get(k) for k in ("fam", "plus", "dynw", "ops", "tasks", "rfail", "afail")}
+        canon = {k: c.get(k) for k in ("fam", "plus", "dynw", "dyns", "mgmt", "ops", "tasks", "rfail", "afail")}
         run.count_case(canon, bool(nontriv))
         run.cov["traces_validated_against_impl"] += 1
         run.cov.setdefault("operations_or_syncs_validated", 0)
@@ -253,9 +263,11 @@ def judge(run, cases, res):
                 elif ended and v == 4:
                     # the batch is syncs j..i; a ConfigMap task inside it makes updateAllConfigs the intended ending
                     # (then the reload without change is the by-design F16a class), otherwise the stale flag did it
-                    site = "batch-end" if any(x["kind"] == "configmap" for x in batch_tasks) else "batch-end-updateall"
+                    site = "batch-end" if (any(x["kind"] in ("configmap", "mgmtconfigmap") for x in batch_tasks)
+                                            or any(o["op"] == "updateconfig" for o in t.get("work") or [])) else "batch-end-updateall"
                 elif v == 6:
-                    site = "task-endpointslice"
+                    # the EndpointSlice of the controller's own Service goes through updateNumberOfIngressControllerReplicas
+                    site = "task-endpointslice:controller-replicas" if t.get("name") == "nic-svc" else "task-endpointslice"
                 else:
                     site = "task-" + t["kind"] + ":" + work_sites(t)
                 d = dict(c)
